@@ -1,5 +1,5 @@
 """C06 — normalisation: one routine on every route, freed tail cleared, run limit agreed by all implementations."""
-from ..rules import tail, convert, normal, fields, eqord, casts
+from ..rules import tail, convert, normal, fields, eqord, casts, parser
 
 EXPL = ("Decides: SA-TAIL: the in-place normaliser stores the new length and clears [new length, previous length) (value-equal start "
         "by linear normal form; the previous length is read before any store), the dual compressor clears from the stored length to the "
@@ -21,6 +21,7 @@ def run(ctx):
         ctx.guard("C06", "traits", lambda: convert.trait_forms(ctx, prog))
         ctx.guard("C06", "limit", lambda: normal.run_limit_agreement(ctx, prog))
         ctx.guard("C06", "isnorm", lambda: normal.is_normalized_both(ctx, prog))
+        ctx.guard("C06", "capacity", lambda: parser.capacity_after_collapse(ctx, prog))
         ctx.guard("C06", "casts", lambda: casts.census(ctx, prog, scope='hash::algorithms::normalize_|FuzzyHashData.*::normaliz', floor=1))
         ctx.guard("C06", "writers", lambda: tail.classify_writers(ctx, prog, scope=r"(normalize|from_raw_form|init_from_raw_form|hash_dual::algorithms::compress|core::convert::From<internals::hash::FuzzyHashData<S1, S2, false>>)", floor=3))
     return ctx.finish(EXPL, ["slice::fill has its documented meaning"])
